@@ -38,8 +38,7 @@ def plan(tier, seed):
                             dict(space='ext43', ext='all27', labels='ints', schemes='ext', per=100)],
             'stub': [dict(n=4, m=2, labels='ints', schemes='six', per=60), dict(n=4, m=2, labels='ints', schemes='rest11', per=60, flags='one'),
                      dict(n=3, m=3, labels='ints', schemes='six', per=60),
-                     dict(n=5, m=2, labels='ints', schemes='one_b', per=2000, maxk=256, flags='one', configs='plain'),
-                     dict(n=4, m=3, labels='ints', schemes='one', per=4000, maxk=512, flags='one', configs='plain'),
+                     dict(n=5, m=2, labels='ints', schemes='one_b', per=2000, maxk=256, flags='one', configs='plain2'),
                      dict(n=4, m=2, labels=alt, schemes='two', per=60),
                      dict(space='ext43', ext='all27', labels='ints', schemes='ext', per=100)],
         }
@@ -65,6 +64,7 @@ def init_worker(cfg):
     _lib['mode'] = mode
     _lib['configs'] = cross.select_configs(mode, EXACT)
     _lib['plain'] = cross.select_configs(mode, ['ExactCplex(opt=False)', 'ExactCplexOptim1', 'Exact(opt=True)'])
+    _lib['plain2'] = cross.select_configs(mode, ['ExactCplex(opt=False)', 'Exact(opt=True)'])
     _lib['decoded'] = {}
 
 
